@@ -1491,6 +1491,43 @@ pub fn run_iters(words: &[&str]) -> String {
     out
 }
 
+/// probe f17 <try 0|1>: the directed scenario of known finding F17 (C18), which the program language cannot express
+/// (it polls an Acquire future by hand): one task holds a queued, pending `acquire(5)` on an unfair semaphore with one
+/// permit and then acquires that permit itself; `reblock_if_unfair` then blocks the queued waiter's task, which is
+/// the running task.  Explored exhaustively; prints OK or the failure.
+pub fn run_probe(words: &[&str]) -> String {
+    let [_, what, arg] = words else { return "ERR bad case".to_string() };
+    if *what != "f17" {
+        return "ERR unknown probe".to_string();
+    }
+    let use_try = *arg == "1";
+    let mut config = Config::new();
+    config.failure_persistence = FailurePersistence::None;
+    let res = catch_unwind(AssertUnwindSafe(|| {
+        Runner::new(shuttle_schedulers::DfsScheduler::new(Some(2000), false), config).run(move || {
+            let s = BatchSemaphore::new(1, Fairness::Unfair);
+            shuttle::future::block_on(async move {
+                use std::future::Future;
+                let mut big = Box::pin(s.acquire(5));
+                let r = std::future::poll_fn(|cx| std::task::Poll::Ready(big.as_mut().poll(cx))).await;
+                assert!(r.is_pending());
+                if use_try {
+                    s.try_acquire(1).unwrap();
+                } else {
+                    s.acquire(1).await.unwrap();
+                }
+                thread::yield_now();
+                s.release(1);
+                drop(big);
+            });
+        })
+    }));
+    match res {
+        Ok(n) => format!("PROBE OK N={}", n),
+        Err(p) => format!("PROBE FAIL {}", classify(p)),
+    }
+}
+
 /// hits <kind> <seed> <param> <iters> <objs> <bodies> <pattern,pattern,...>: one run of `iters` executions; for every
 /// pattern the number of executions whose log contains a token starting with it, and the largest number of
 /// multi-choice decisions in one execution (PCT's estimate of k).
@@ -1561,6 +1598,9 @@ pub fn run_timelimit(words: &[&str]) -> String {
 }
 
 pub fn run(words: &[&str]) -> String {
+    if words.first() == Some(&"probe") {
+        return run_probe(words);
+    }
     if words.first() == Some(&"hits") {
         return run_hits(words);
     }
